@@ -1,0 +1,631 @@
+//! Verification hook (`--cfg sentinel_verif` only): `Mutex` / `RwLock` with the API of `std::sync`, which report every
+//! acquisition and release, and a deterministic scheduler that interleaves registered threads at exactly these points.
+//!
+//! A thread that has not called [`sched::enter`] goes straight through to the `std` lock: without a running schedule the
+//! wrappers behave like the `std` types (including poisoning).
+use std::cell::Cell;
+use std::collections::HashMap;
+use std::ops::{Deref, DerefMut};
+use std::panic::Location;
+use std::sync::{Condvar, LockResult, PoisonError, TryLockError, TryLockResult};
+
+thread_local! {
+    static TID: Cell<Option<usize>> = Cell::new(None);
+}
+
+#[derive(Clone, Copy, PartialEq, Debug)]
+enum TState {
+    NotStarted,
+    Runnable,
+    Blocked(usize),
+    Finished,
+}
+
+enum LockState {
+    Write(usize),
+    Read(Vec<usize>),
+}
+
+struct Ctrl {
+    current: usize,
+    state: Vec<TState>,
+    locks: HashMap<usize, LockState>,
+    names: HashMap<usize, usize>,
+    choices: Vec<u8>,
+    pos: usize,
+    log: Vec<String>,
+    deadlock: bool,
+    abort: bool,
+    steps: usize,
+    max_steps: usize,
+}
+
+static CTRL: std::sync::Mutex<Option<Ctrl>> = std::sync::Mutex::new(None);
+static CV: Condvar = Condvar::new();
+
+fn ctrl_lock() -> std::sync::MutexGuard<'static, Option<Ctrl>> {
+    match CTRL.lock() {
+        Ok(g) => g,
+        Err(p) => p.into_inner(),
+    }
+}
+
+impl Ctrl {
+    fn lock_name(&mut self, addr: usize, site: &'static Location<'static>) -> String {
+        let n = self.names.len();
+        let k = *self.names.entry(addr).or_insert(n);
+        let f = site.file();
+        let short = f.rsplit("/src/").next().unwrap_or(f);
+        format!("{}:{}#{}", short, site.line(), k)
+    }
+
+    /// hand the baton on: `me` stays first in the order when it can still run
+    fn pick(&mut self, me: usize) {
+        let mut order: Vec<usize> = Vec::new();
+        if self.state[me] == TState::Runnable {
+            order.push(me);
+        }
+        for t in 0..self.state.len() {
+            if t != me && self.state[t] == TState::Runnable {
+                order.push(t);
+            }
+        }
+        if order.is_empty() {
+            if self.state.iter().any(|s| matches!(s, TState::Blocked(_))) {
+                self.deadlock = true;
+                let waits: Vec<String> = self
+                    .state
+                    .iter()
+                    .enumerate()
+                    .filter_map(|(t, s)| if let TState::Blocked(l) = s { Some(format!("t{}->L{}", t, self.names.get(l).copied().unwrap_or(0))) } else { None })
+                    .collect();
+                self.log.push(format!("DEADLOCK {}", waits.join(",")));
+                self.abort = true;
+            }
+            return;
+        }
+        let c = if self.pos < self.choices.len() { self.choices[self.pos] as usize } else { 0 };
+        self.pos += 1;
+        self.current = order[c % order.len()];
+    }
+}
+
+/// give other threads the chance to run; returns when this thread holds the baton again
+fn yield_point(me: usize, event: Option<String>) {
+    let mut g = ctrl_lock();
+    {
+        let c = match g.as_mut() {
+            Some(c) => c,
+            None => return,
+        };
+        if let Some(e) = event {
+            c.log.push(format!("t{} {}", me, e));
+        }
+        c.steps += 1;
+        if c.steps > c.max_steps {
+            c.log.push("STEP-LIMIT".into());
+            c.abort = true;
+        }
+        c.pick(me);
+    }
+    CV.notify_all();
+    loop {
+        let c = match g.as_ref() {
+            Some(c) => c,
+            None => return,
+        };
+        if c.abort {
+            drop(g);
+            panic!("verif-sched-abort");
+        }
+        if c.current == me && c.state[me] == TState::Runnable {
+            return;
+        }
+        g = match CV.wait(g) {
+            Ok(x) => x,
+            Err(p) => p.into_inner(),
+        };
+    }
+}
+
+#[derive(Clone, Copy, PartialEq)]
+enum Mode {
+    Read,
+    Write,
+}
+
+/// blocking acquisition in the schedule's lock table; afterwards the real lock is free for this thread
+fn acquire(me: usize, addr: usize, site: &'static Location<'static>, mode: Mode, try_only: bool) -> bool {
+    loop {
+        let name = {
+            let mut g = ctrl_lock();
+            match g.as_mut() {
+                Some(c) => c.lock_name(addr, site),
+                None => return true,
+            }
+        };
+        let what = match (mode, try_only) {
+            (Mode::Write, false) => "acq-w",
+            (Mode::Read, false) => "acq-r",
+            (Mode::Write, true) => "try-w",
+            (Mode::Read, true) => "try-r",
+        };
+        yield_point(me, Some(format!("{} {}", what, name)));
+        let mut g = ctrl_lock();
+        let c = match g.as_mut() {
+            Some(c) => c,
+            None => return true,
+        };
+        let (free, reentrant) = match c.locks.get(&addr) {
+            None => (true, false),
+            Some(LockState::Write(h)) => (false, *h == me),
+            Some(LockState::Read(rs)) => (mode == Mode::Read, rs.contains(&me)),
+        };
+        if reentrant {
+            c.log.push(format!("t{} REENTRANT {}", me, name));
+        }
+        if free {
+            match mode {
+                Mode::Write => {
+                    c.locks.insert(addr, LockState::Write(me));
+                }
+                Mode::Read => match c.locks.get_mut(&addr) {
+                    Some(LockState::Read(rs)) => rs.push(me),
+                    _ => {
+                        c.locks.insert(addr, LockState::Read(vec![me]));
+                    }
+                },
+            }
+            c.log.push(format!("t{} got {}", me, name));
+            return true;
+        }
+        if try_only {
+            c.log.push(format!("t{} busy {}", me, name));
+            return false;
+        }
+        c.state[me] = TState::Blocked(addr);
+        c.log.push(format!("t{} blocked {}", me, name));
+        c.pick(me);
+        drop(g);
+        CV.notify_all();
+        // wait until released and scheduled again
+        let mut g = ctrl_lock();
+        loop {
+            let c = match g.as_ref() {
+                Some(c) => c,
+                None => return true,
+            };
+            if c.abort {
+                drop(g);
+                panic!("verif-sched-abort");
+            }
+            if c.current == me && c.state[me] == TState::Runnable {
+                break;
+            }
+            g = match CV.wait(g) {
+                Ok(x) => x,
+                Err(p) => p.into_inner(),
+            };
+        }
+    }
+}
+
+fn release(me: usize, addr: usize, site: &'static Location<'static>) {
+    {
+        let mut g = ctrl_lock();
+        let c = match g.as_mut() {
+            Some(c) => c,
+            None => return,
+        };
+        let name = c.lock_name(addr, site);
+        let gone = match c.locks.get_mut(&addr) {
+            Some(LockState::Write(_)) => true,
+            Some(LockState::Read(rs)) => {
+                if let Some(i) = rs.iter().position(|x| *x == me) {
+                    rs.remove(i);
+                }
+                rs.is_empty()
+            }
+            None => false,
+        };
+        if gone {
+            c.locks.remove(&addr);
+        }
+        for s in c.state.iter_mut() {
+            if *s == TState::Blocked(addr) {
+                *s = TState::Runnable;
+            }
+        }
+        c.log.push(format!("t{} rel {}", me, name));
+        if c.abort || std::thread::panicking() {
+            return;
+        }
+    }
+    yield_point(me, None);
+}
+
+/// a named step that is atomic for the schedule (placed before an atomic operation on shared data)
+pub fn point(name: &str) {
+    if let Some(me) = TID.with(|t| t.get()) {
+        if !std::thread::panicking() {
+            yield_point(me, Some(format!("point {}", name)));
+        }
+    }
+}
+
+/// the deterministic scheduler's control interface (used by the verification harness)
+pub mod sched {
+    use super::*;
+
+    /// start a schedule for `n` threads; `choices[k]` picks, at the k-th scheduling point, among the runnable threads
+    /// (0 = keep running the current one)
+    pub fn start(n: usize, choices: Vec<u8>, max_steps: usize) {
+        let mut g = ctrl_lock();
+        *g = Some(Ctrl {
+            current: 0,
+            state: vec![TState::NotStarted; n],
+            locks: HashMap::new(),
+            names: HashMap::new(),
+            choices,
+            pos: 0,
+            log: Vec::new(),
+            deadlock: false,
+            abort: false,
+            steps: 0,
+            max_steps,
+        });
+    }
+
+    /// called by thread `i` before its work; returns when the thread is scheduled for the first time
+    pub fn enter(i: usize) {
+        TID.with(|t| t.set(Some(i)));
+        let mut g = ctrl_lock();
+        if let Some(c) = g.as_mut() {
+            c.state[i] = TState::Runnable;
+        }
+        CV.notify_all();
+        loop {
+            let c = match g.as_ref() {
+                Some(c) => c,
+                None => return,
+            };
+            if c.abort {
+                drop(g);
+                panic!("verif-sched-abort");
+            }
+            // thread 0 starts; the others wait for the baton
+            let all_in = c.state.iter().all(|s| *s != TState::NotStarted);
+            if all_in && c.current == i {
+                return;
+            }
+            g = match CV.wait(g) {
+                Ok(x) => x,
+                Err(p) => p.into_inner(),
+            };
+        }
+    }
+
+    /// called by thread `i` after its work (also when it panicked): the baton goes on
+    pub fn leave(i: usize, note: &str) {
+        TID.with(|t| t.set(None));
+        let mut g = ctrl_lock();
+        if let Some(c) = g.as_mut() {
+            c.state[i] = TState::Finished;
+            c.log.push(format!("t{} done {}", i, note));
+            if !c.abort {
+                c.pick(i);
+            }
+        }
+        drop(g);
+        CV.notify_all();
+    }
+
+    /// a line for the log from the harness (results observed by a thread)
+    pub fn note(i: usize, text: &str) {
+        let mut g = ctrl_lock();
+        if let Some(c) = g.as_mut() {
+            c.log.push(format!("t{} note {}", i, text));
+        }
+    }
+
+    /// end the schedule: (event log, deadlock detected, scheduling points used)
+    pub fn finish() -> (Vec<String>, bool, usize) {
+        let mut g = ctrl_lock();
+        match g.take() {
+            Some(c) => (c.log, c.deadlock, c.pos),
+            None => (Vec::new(), false, 0),
+        }
+    }
+}
+
+// ------------------------------------------------------------------------------------------------ Mutex
+
+pub struct Mutex<T: ?Sized> {
+    site: &'static Location<'static>,
+    inner: std::sync::Mutex<T>,
+}
+
+pub struct MutexGuard<'a, T: ?Sized + 'a> {
+    owner: Option<usize>,
+    addr: usize,
+    site: &'static Location<'static>,
+    inner: Option<std::sync::MutexGuard<'a, T>>,
+}
+
+impl<T> Mutex<T> {
+    #[track_caller]
+    pub fn new(t: T) -> Mutex<T> {
+        Mutex { site: Location::caller(), inner: std::sync::Mutex::new(t) }
+    }
+}
+
+impl<T: ?Sized> Mutex<T> {
+    fn addr(&self) -> usize {
+        &self.inner as *const _ as *const () as usize
+    }
+
+    pub fn lock(&self) -> LockResult<MutexGuard<'_, T>> {
+        let me = TID.with(|t| t.get());
+        if let Some(me) = me {
+            acquire(me, self.addr(), self.site, Mode::Write, false);
+        }
+        match self.inner.lock() {
+            Ok(g) => Ok(MutexGuard { owner: me, addr: self.addr(), site: self.site, inner: Some(g) }),
+            Err(p) => Err(PoisonError::new(MutexGuard { owner: me, addr: self.addr(), site: self.site, inner: Some(p.into_inner()) })),
+        }
+    }
+
+    pub fn try_lock(&self) -> TryLockResult<MutexGuard<'_, T>> {
+        let me = TID.with(|t| t.get());
+        if let Some(me) = me {
+            if !acquire(me, self.addr(), self.site, Mode::Write, true) {
+                return Err(TryLockError::WouldBlock);
+            }
+        }
+        match self.inner.try_lock() {
+            Ok(g) => Ok(MutexGuard { owner: me, addr: self.addr(), site: self.site, inner: Some(g) }),
+            Err(TryLockError::Poisoned(p)) => {
+                Err(TryLockError::Poisoned(PoisonError::new(MutexGuard { owner: me, addr: self.addr(), site: self.site, inner: Some(p.into_inner()) })))
+            }
+            Err(TryLockError::WouldBlock) => {
+                if let Some(me) = me {
+                    release(me, self.addr(), self.site);
+                }
+                Err(TryLockError::WouldBlock)
+            }
+        }
+    }
+}
+
+impl<T: ?Sized + Default> Default for Mutex<T> {
+    #[track_caller]
+    fn default() -> Mutex<T> {
+        Mutex::new(Default::default())
+    }
+}
+
+impl<T: ?Sized + std::fmt::Debug> std::fmt::Debug for Mutex<T> {
+    fn fmt(&self, f: &mut std::fmt::Formatter<'_>) -> std::fmt::Result {
+        self.inner.fmt(f)
+    }
+}
+
+impl<T: ?Sized> Deref for MutexGuard<'_, T> {
+    type Target = T;
+    fn deref(&self) -> &T {
+        self.inner.as_ref().unwrap()
+    }
+}
+
+impl<T: ?Sized> DerefMut for MutexGuard<'_, T> {
+    fn deref_mut(&mut self) -> &mut T {
+        self.inner.as_mut().unwrap()
+    }
+}
+
+impl<T: ?Sized> Drop for MutexGuard<'_, T> {
+    fn drop(&mut self) {
+        // the real lock first, then the schedule's table (and a scheduling point)
+        self.inner.take();
+        if let Some(me) = self.owner {
+            release(me, self.addr, self.site);
+        }
+    }
+}
+
+// ------------------------------------------------------------------------------------------------ RwLock
+
+pub struct RwLock<T: ?Sized> {
+    site: &'static Location<'static>,
+    inner: std::sync::RwLock<T>,
+}
+
+pub struct RwLockReadGuard<'a, T: ?Sized + 'a> {
+    owner: Option<usize>,
+    addr: usize,
+    site: &'static Location<'static>,
+    inner: Option<std::sync::RwLockReadGuard<'a, T>>,
+}
+
+pub struct RwLockWriteGuard<'a, T: ?Sized + 'a> {
+    owner: Option<usize>,
+    addr: usize,
+    site: &'static Location<'static>,
+    inner: Option<std::sync::RwLockWriteGuard<'a, T>>,
+}
+
+impl<T> RwLock<T> {
+    #[track_caller]
+    pub fn new(t: T) -> RwLock<T> {
+        RwLock { site: Location::caller(), inner: std::sync::RwLock::new(t) }
+    }
+}
+
+impl<T: ?Sized> RwLock<T> {
+    fn addr(&self) -> usize {
+        &self.inner as *const _ as *const () as usize
+    }
+
+    pub fn read(&self) -> LockResult<RwLockReadGuard<'_, T>> {
+        let me = TID.with(|t| t.get());
+        if let Some(me) = me {
+            acquire(me, self.addr(), self.site, Mode::Read, false);
+        }
+        match self.inner.read() {
+            Ok(g) => Ok(RwLockReadGuard { owner: me, addr: self.addr(), site: self.site, inner: Some(g) }),
+            Err(p) => Err(PoisonError::new(RwLockReadGuard { owner: me, addr: self.addr(), site: self.site, inner: Some(p.into_inner()) })),
+        }
+    }
+
+    pub fn write(&self) -> LockResult<RwLockWriteGuard<'_, T>> {
+        let me = TID.with(|t| t.get());
+        if let Some(me) = me {
+            acquire(me, self.addr(), self.site, Mode::Write, false);
+        }
+        match self.inner.write() {
+            Ok(g) => Ok(RwLockWriteGuard { owner: me, addr: self.addr(), site: self.site, inner: Some(g) }),
+            Err(p) => Err(PoisonError::new(RwLockWriteGuard { owner: me, addr: self.addr(), site: self.site, inner: Some(p.into_inner()) })),
+        }
+    }
+}
+
+impl<T: ?Sized + Default> Default for RwLock<T> {
+    #[track_caller]
+    fn default() -> RwLock<T> {
+        RwLock::new(Default::default())
+    }
+}
+
+impl<T: ?Sized + std::fmt::Debug> std::fmt::Debug for RwLock<T> {
+    fn fmt(&self, f: &mut std::fmt::Formatter<'_>) -> std::fmt::Result {
+        self.inner.fmt(f)
+    }
+}
+
+impl<T: ?Sized> Deref for RwLockReadGuard<'_, T> {
+    type Target = T;
+    fn deref(&self) -> &T {
+        self.inner.as_ref().unwrap()
+    }
+}
+
+impl<T: ?Sized> Drop for RwLockReadGuard<'_, T> {
+    fn drop(&mut self) {
+        self.inner.take();
+        if let Some(me) = self.owner {
+            release(me, self.addr, self.site);
+        }
+    }
+}
+
+impl<T: ?Sized> Deref for RwLockWriteGuard<'_, T> {
+    type Target = T;
+    fn deref(&self) -> &T {
+        self.inner.as_ref().unwrap()
+    }
+}
+
+impl<T: ?Sized> DerefMut for RwLockWriteGuard<'_, T> {
+    fn deref_mut(&mut self) -> &mut T {
+        self.inner.as_mut().unwrap()
+    }
+}
+
+impl<T: ?Sized> Drop for RwLockWriteGuard<'_, T> {
+    fn drop(&mut self) {
+        self.inner.take();
+        if let Some(me) = self.owner {
+            release(me, self.addr, self.site);
+        }
+    }
+}
+
+impl<T: ?Sized + std::fmt::Debug> std::fmt::Debug for MutexGuard<'_, T> {
+    fn fmt(&self, f: &mut std::fmt::Formatter<'_>) -> std::fmt::Result {
+        (**self).fmt(f)
+    }
+}
+
+impl<T: ?Sized + std::fmt::Debug> std::fmt::Debug for RwLockReadGuard<'_, T> {
+    fn fmt(&self, f: &mut std::fmt::Formatter<'_>) -> std::fmt::Result {
+        (**self).fmt(f)
+    }
+}
+
+impl<T: ?Sized + std::fmt::Debug> std::fmt::Debug for RwLockWriteGuard<'_, T> {
+    fn fmt(&self, f: &mut std::fmt::Formatter<'_>) -> std::fmt::Result {
+        (**self).fmt(f)
+    }
+}
+
+// ------------------------------------------------------------------------------------------------ atomics
+
+fn atomic_point() {
+    if let Some(me) = TID.with(|t| t.get()) {
+        if !std::thread::panicking() {
+            yield_point(me, None);
+        }
+    }
+}
+
+macro_rules! verif_atomic {
+    ($name:ident, $std:ty, $prim:ty) => {
+        /// same API as the `std` atomic; every operation is preceded by a scheduling point
+        #[derive(Default)]
+        pub struct $name($std);
+
+        impl $name {
+            pub const fn new(v: $prim) -> Self {
+                $name(<$std>::new(v))
+            }
+            pub fn load(&self, o: std::sync::atomic::Ordering) -> $prim {
+                atomic_point();
+                self.0.load(o)
+            }
+            pub fn store(&self, v: $prim, o: std::sync::atomic::Ordering) {
+                atomic_point();
+                self.0.store(v, o)
+            }
+            pub fn swap(&self, v: $prim, o: std::sync::atomic::Ordering) -> $prim {
+                atomic_point();
+                self.0.swap(v, o)
+            }
+            pub fn fetch_add(&self, v: $prim, o: std::sync::atomic::Ordering) -> $prim {
+                atomic_point();
+                self.0.fetch_add(v, o)
+            }
+            pub fn fetch_sub(&self, v: $prim, o: std::sync::atomic::Ordering) -> $prim {
+                atomic_point();
+                self.0.fetch_sub(v, o)
+            }
+            pub fn compare_exchange(
+                &self,
+                c: $prim,
+                n: $prim,
+                s: std::sync::atomic::Ordering,
+                f: std::sync::atomic::Ordering,
+            ) -> Result<$prim, $prim> {
+                atomic_point();
+                self.0.compare_exchange(c, n, s, f)
+            }
+            pub fn fetch_update<F: FnMut($prim) -> Option<$prim>>(
+                &self,
+                s: std::sync::atomic::Ordering,
+                f: std::sync::atomic::Ordering,
+                g: F,
+            ) -> Result<$prim, $prim> {
+                atomic_point();
+                self.0.fetch_update(s, f, g)
+            }
+        }
+
+        impl std::fmt::Debug for $name {
+            fn fmt(&self, f: &mut std::fmt::Formatter<'_>) -> std::fmt::Result {
+                self.0.fmt(f)
+            }
+        }
+    };
+}
+
+verif_atomic!(AtomicU32, std::sync::atomic::AtomicU32, u32);
+verif_atomic!(AtomicU64, std::sync::atomic::AtomicU64, u64);
